@@ -128,11 +128,10 @@ def gen_case(rng, pid, tier):
              'down': [i for i in range(1, nsrv + 1) if rng.random() < 0.1]}
     ops = []
     napps = [0]
-    # affinity limits are a property of the affinity name (as in eng_sched); `mixed` histories also contain
-    # instances of one name with different limits (manifest changed between two instance creations)
+    # affinity limits are a property of the affinity name ("instances of one affinity share their limits",
+    # properties.jsonl C04; as in eng_sched)
     limits = {(p, k): (rng.choice([{'server': 1}, {'rack': 1}, {'server': 2}, {'cell': 2}]) if rng.random() < 0.4 else None)
               for p in (1, 2) for k in (0, 1)}
-    mixed = rng.random() < 0.1
 
     def newapp():
         napps[0] += 1
@@ -140,8 +139,6 @@ def gen_case(rng, pid, tier):
         man = {'memory': rng.choice(['1G', '2G', '3G', '5G']), 'cpu': rng.choice(['10%', '50%', '200%']),
                'disk': '1G', 'priority': rng.choice([1, 10, 50, 100])}
         lim = limits[(p, k)]
-        if mixed and rng.random() < 0.3:
-            lim = rng.choice([None, {'server': 1}, {'rack': 1}, {'cell': 2}])
         if lim:
             man['affinity_limits'] = lim
         if rng.random() < 0.35:
@@ -214,8 +211,13 @@ def gen_case(rng, pid, tier):
             sub = []
             for _ in range(rng.randint(1, 2)):
                 y = rng.random()
-                if y < 0.6:
+                if y < 0.45:
                     sub.append(['presence', rng.randint(1, nsrv), rng.random() < 0.4])
+                elif y < 0.65 and napps[0]:
+                    # a record no correct master writes: a second record of an instance (double), a record
+                    # of a pending / unscheduled instance (stale), or one under a server without record (s09)
+                    sub.append(['inject', rng.randint(1, napps[0]), rng.choice(list(range(1, nsrv + 1)) + [9]),
+                                rng.choice([None, 0, 1]), rng.choice([0, 50, 1000])])
                 elif y < 0.8 and napps[0]:
                     sub.append(['rmapp', rng.randint(1, napps[0])])
                 else:
@@ -301,7 +303,8 @@ class World(object):
         self.site_placed = {}                  # (srv, app) -> call site that placed app on srv
         self.gone_ctx = None
         self.origin = {}
-        self.carried_stale = set()
+        self.injected = set()                  # (srv, app) records injected behind the master's back
+        self.opsites = []
         self.abort_info = None
 
     # ---- admin-side helpers ---------------------------------------------------------------
@@ -364,6 +367,7 @@ class World(object):
         if self.depth > 0:
             if not w.startswith('mk:'):
                 self.oplog.append(w)
+                self.opsites.append(self.zk.sites[-1] if self.zk is not None and self.zk.sites else '')
         else:
             self.run.op('w ' + w, None)
 
@@ -748,6 +752,7 @@ def _install(w):
                 pre = line_fn(self, *args, **kwargs)
                 w.depth = 1
                 w.oplog = []
+                w.opsites = []
                 try:
                     r = orig(self, *args, **kwargs)
                 except fz.Cut:
@@ -763,6 +768,14 @@ def _install(w):
                 w.depth = 0
                 w.refresh_flags()
                 line = pre()
+                if line.startswith('restoreall'):
+                    # restore_placements first drops the records of servers that are not loaded, iterating a
+                    # Python set of names: that leading group is compared in canonical order
+                    n = 0
+                    while n < len(w.oplog) and w.opsites[n] == 'restore_placements' and \
+                            sname(int(w.oplog[n].split(':')[1])) not in self.servers:
+                        n += 1
+                    w.oplog[:n] = sorted(w.oplog[:n], key=lambda x: tuple(int(y) for y in x.split(':')[1:3]))
                 w.run.op(line, ('~' if line.startswith('initsched') else '') + w.obs(w.oplog))
                 return r
             return wrapper
@@ -911,12 +924,13 @@ def fresh_start(w, store, upto, t):
         w.now, w.enabled = saved
 
 
-def monitor_c10(w, snap, log, stale_before, what, sites=None):
+def monitor_c10(w, snap, log, injected, what, sites=None):
     """Every prefix of the master's writes during one operation is a crash point.
 
-    `stale_before`: records that already disagreed with the model when the operation started (C09
-    violated beforehand, finding F6).  C10 is claimed from C09's agreement (DESIGN.md C10): a prefix
-    state that still holds such a record is counted under C09's finding, not reported here."""
+    `injected`: records the history put into the store behind the master's back (`inject` sub-ops of
+    `offline`: double / stale / orphan records no correct master writes).  An instance that still has
+    an injected record is exempt from the double-record clause (the double is the injection); the
+    recovery clauses (start-up completes, agreement after the first cycle) apply to every prefix."""
     run = w.run
     w.stats['c10-ops'] += 1
     nrec = sum(1 for e in log if e[1].startswith('/placement/') and e[1].count('/') == 3)
@@ -930,29 +944,20 @@ def monitor_c10(w, snap, log, stale_before, what, sites=None):
         w.stats['c10-prefixes'] += 1
         where = '%s: cut after %d of %d writes' % (what, k, len(log))
         recs = records(st)
-        if any(key in recs for key in stale_before):
-            w.stats['c10-prefix-with-stale-record(C09)'] += 1
-            continue
+        tainted = {key[1] for key in injected if key in recs}
         for app, srvs in sorted(doubles(st).items()):
+            if app in tainted:
+                w.stats['c10-double-is-injected'] += 1
+                continue
             # attributed to the function whose write completed the double
             writer = sites[k - 1] if (sites and k) else what
             _hit(run, 'double-record-at-cut', writer, '%s: %s under %s' % (where, app, srvs))
-        loaded = set(st.children('/servers'))
-        orphan = sorted(k for k in recs if k[0] not in loaded)
         m2, err, stage = fresh_start(w, st, 'cycle', w.now + 1)
-        # a record under a server that has no server record any more is never visited by a starting
-        # master (start-up face of finding F6): attributed to that, not to the operation that was cut
-        site0 = 'record-under-unloaded-server' if orphan else what
         if err:
-            _hit(run, 'restart-exception:' + stage, site0, '%s: %s %s' % (where, err, orphan[:2] or ''))
+            _hit(run, 'restart-exception:' + stage, what, '%s: %s' % (where, err))
             continue
-        for clause, site, detail, key in agree(st, m2):
-            if clause == 'record-content':
-                # content staleness after a put-branch restore at start-up is finding F10 (C09's)
-                w.stats['c10-restart-content(C09)'] += 1
-                continue
-            _hit(run, 'restart-disagree:' + clause, 'record-under-unloaded-server' if key in orphan else what,
-                 '%s: %s' % (where, detail))
+        for clause, _site, detail, _key in agree(st, m2):
+            _hit(run, 'restart-disagree:' + clause, what, '%s: %s' % (where, detail))
 
 
 def monitor_c11(w, when):
@@ -1009,13 +1014,14 @@ def monitor_c11(w, when):
             if a is None:
                 _hit(run, 'healthy-record-dropped', 'restore_placement', '%s: %s on %s: app not in model' % (when, app, srv))
             elif a.server != srv:
-                lims = {tuple(sorted(dict(x.affinity.limits).items())) for x in m2.cell.apps.values()
-                        if x.affinity.name == a.affinity.name}
-                site = 'restore_placement[one affinity name, different limits]' if len(lims) > 1 else 'restore_placement'
-                if any(k[0] == srv for k in stale):
-                    # a record that already disagreed with the running master's model (C09, finding F6) is
-                    # restored first and takes the capacity / affinity head-room of a legitimate one
-                    site = 'restore_placement[stale record (C09 finding F6) under the server]'
+                site = 'restore_placement'
+                old_srv = w.m.servers.get(srv)
+                if old_srv is not None and old_srv.parent is not None and s.parent is not None and \
+                        old_srv.parent.name != s.parent.name:
+                    # the server record names another rack than the one the running master holds the server
+                    # in (a `servers` event without names reloads only added / removed servers): the affinity
+                    # counters of the new rack refuse what the old rack admitted
+                    site = 'restore_placement[server moved to another rack, running master not told]'
                 _hit(run, 'healthy-record-not-restored', site, '%s: %s recorded on %s, model %s' % (when, app, srv, a.server))
             elif a.identity != d.get('identity') or a.placement_expiry != d.get('expires'):
                 _hit(run, 'restored-content-differs', 'restore_placement', '%s: %s on %s: record (%s,%s) model (%s,%s)' % (
@@ -1183,7 +1189,7 @@ def _guarded(w, what, fn):
     if w.pid != 'C10':
         return fn()
     snap = w.store.clone()
-    stale = _stale_now(w) | set(w.carried_stale)
+    stale = {k for k in w.injected if k in records(w.store)}
     zk_before = w.zk
     i0 = len(w.zk.log) if w.zk is not None else 0
     admin0 = len(w.admin.log)
@@ -1202,8 +1208,6 @@ def _restart(w, pid, when):
     w.stats['restart'] += 1
     w.now += 3
     w.enabled = False
-    # records that disagreed with the dying master's model stay attributed to C09 for the new one
-    w.carried_stale = _stale_now(w) | {k for k in w.carried_stale if k in records(w.store)}
     _guarded(w, 'restart', lambda: _start_master(w))
     _guarded(w, 'first-cycle', lambda: _cycle(w, pid))
     _after_cycle(w, pid, when)
@@ -1249,10 +1253,34 @@ def _apply(case, pid, run, w, op):
         w.stats['offline'] += 1
         w.enabled = False
         w.now += 1
+        w.run.op('tick %d' % w.now, None)
         for sub in op[1]:
             if sub[0] == 'presence':
                 if '/servers/' + sname(sub[1]) in w.store.nodes or not sub[2]:
                     _presence(w, sub[1], sub[2])
+            elif sub[0] == 'inject':
+                _, n, sid, ident, dexp = sub
+                name = w.apps_n.get(n)
+                path = None if name is None else '/placement/%s/%s' % (sname(sid), name)
+                if path is not None and path not in w.store.nodes:
+                    w.stats['inject'] += 1
+                    if '/placement/' + sname(sid) not in w.store.nodes:
+                        w.admin.create('/placement/' + sname(sid), b'')
+                        _env(w, 'w mk:%d' % sid)
+                    twin = [v for k, v in records(w.store).items() if k[1] == name]
+                    if twin:
+                        # a second record of a placed instance carries what the first one carries
+                        w.stats['inject-double'] += 1
+                        d = dict(twin[0][0])
+                    else:
+                        man = w.store.nodes.get('/scheduled/' + name)
+                        grouped = man is not None and 'identity_group' in json.loads(man.data.decode())
+                        ident = (ident or 0) if grouped else None      # a placed grouped instance has an identity
+                        d = {'identity': ident, 'identity_count': None if ident is None else 3,
+                             'expires': float(w.now + dexp)}
+                    w.zput(path, d)
+                    w.injected.add((sname(sid), name))
+                    _env(w, 'w ' + w.canon_write('create', path, json.dumps(d).encode()))
             elif sub[0] == 'rmapp':
                 name = w.apps_n.get(sub[1])
                 if name is not None and '/scheduled/' + name in w.store.nodes:
